@@ -376,3 +376,39 @@ package db
 //@   assert before call#2 OnSuccess: updateEvent.CollectionID == res(Version, 1, 0).CollectionID
 //@   assert before call#4 OnSuccess: updateEvent.CollectionID == res(Version, 1, 0).CollectionID
 //@   tags C20 C19
+//@
+//@ // ===== C09: local writes never leave a one-to-one link held by two documents ==========================
+//@ // For a one-to-one relation field with a value, success means: a selection plan over "another document
+//@ // whose field has this value" was initialised, started and asked once, and it had no document; every
+//@ // plan error is returned; the plan is closed on every path.
+//@ // errors.Wrap / errors.New / errors.WithStack always build a new error value (errors/errors.go)
+//@ extern errors.Wrap(m, inner, kv) -> (e)
+//@   ensures e != nil
+//@   nodefault
+//@ extern fmt.Sprintf(f, args) -> (s)
+//@   pure
+//@   nodefault
+//@ extern (client.FieldKind).* -> (r)
+//@   pure
+//@   nodefault
+//@ extern (immutable.Option[client.FieldKind]).* -> (r)
+//@   pure
+//@   nodefault
+//@ func (*collection).validateOneToOneLinkDoesntAlreadyExist -> (err)
+//@   assert before call#1 makeSelectionPlan: arg0 == c && arg2 == box(res(Sprintf, 1, 0))
+//@   assert before call#1 makeSelectionPlan: callarg(Sprintf, 1, 1)[1] == box(docID) && callarg(Sprintf, 1, 1)[2] == box(fieldDescription.Name) && callarg(Sprintf, 1, 1)[3] == value && len(callarg(Sprintf, 1, 1)) == 4
+//@   assert before call#1 Init: arg0 == res(makeSelectionPlan, 1, 0)
+//@   assert before call#1 Start: arg0 == res(makeSelectionPlan, 1, 0)
+//@   assert before call#1 Next: arg0 == res(makeSelectionPlan, 1, 0)
+//@   ensures err == nil && called(makeSelectionPlan, 1) ==> called(Init, 1) && called(Start, 1) && called(Next, 1) && !res(Next, 1, 0) && res(Next, 1, 1) == nil
+//@   ensures called(makeSelectionPlan, 1) && res(makeSelectionPlan, 1, 1) == nil ==> called(Close, 1) || called(Close, 2) || called(Close, 3) || called(Close, 4) || called(Close, 5)
+//@   ensures err == nil && !called(makeSelectionPlan, 1) ==> fieldDescription.Kind != box(client.FieldKind_DocID) || value == nil || !res(IsObject, 1, 0) || res(IsArray, 1, 0) || !res(Option[FieldKind].HasValue, 1, 0) || !res(IsObject, 2, 0) || res(IsArray, 2, 0)
+//@   tags C09
+//@ apply ErrFlow: (*collection).validateOneToOneLinkDoesntAlreadyExist
+//@ // every dirty field passes that validation, with the document's own id and the value that is then
+//@ // written, before its delta is added
+//@ func (*collection).save
+//@   assert before call#1 AddDelta: called(validateOneToOneLinkDoesntAlreadyExist, 1) && res(validateOneToOneLinkDoesntAlreadyExist, 1, 0) == nil
+//@   assert before call#1 validateOneToOneLinkDoesntAlreadyExist: arg0 == c && arg2 == res(String, 2, 0) && arg3 == res(GetFieldByName, 1, 0) && arg4 == res(Value, 1, 0)
+//@   assert before call#1 NewDocField: arg2 == res(GetValueWithField, 1, 0)
+//@   tags C09
